@@ -1,5 +1,6 @@
 import Irismod.Props.Tie_Mt
 open Irismod.Props.Tie Irismod.Gen.PureMt
+#print axioms mt_effects_pinned
 #print axioms mt_guards_pinned
 #print axioms mt_all_translated
 #print axioms mt_translated_pinned
